@@ -331,6 +331,11 @@ class Report:
                         o.replay = {"confirmed": True, "note": "decided by executing the real code on this concrete case"}
                 if o.status == REFUTED and o.inputs and "_lhs" in o.inputs:
                     self._native(o, name, case, sy, sub, opts.get("replay_tol", 1e-9))
+                    if opts.get("need_replay") and not o.replay.get("confirmed"):
+                        # the obligation is about a derived form (e.g. a mechanical limit): only a
+                        # difference reproduced on the real code counts as a refutation
+                        o.status = UNDECIDED
+                        o.detail = "derived-form identity fails but the real code agrees at the replay point: " + o.detail
                 self.add(o)
             if sides:
                 self.add(ob_sides(name + suffix, p, pre, dedupe=seen_sides))
@@ -354,7 +359,7 @@ class Report:
         for p in paths[:2]:
             if p.exc is not None:
                 continue
-            trip = [t for t in _triples4(p.result) if isinstance(t[1], R) and not t[1].is_const]
+            trip = [t for t in _triples4(p.result) if isinstance(t[1], R) and not t[1].is_const and not t[3].get("nocross")]
             if not trip:
                 continue
             env = find_witness(R.const(0), R.const(1), list(pre) + list(p.pc), tries=400, seed=zlib.crc32(name.encode()))
